@@ -95,7 +95,8 @@ Theorem poll_pubrec_sends_pubrel_rt : forall w pid e t,
     rt_ka_ms (s_rt (w_sess w')) = 0 /\ rt_next_ping (s_rt (w_sess w')) = None /\ rt_ping_timeout (s_rt (w_sess w')) = None /\
     w_broker w' = 1 /\ w_txbuf w' = [] /\ w_last_arrival w' = w_now w /\
     rt_quota (s_rt (w_sess w')) = rt_quota (s_rt (w_sess w)) /\ rt_maxquota (s_rt (w_sess w')) = rt_maxquota (s_rt (w_sess w)) /\
-    ob_buf (s_ob (w_sess w')) = ob_buf (s_ob (w_sess w)) /\ rt_mps (s_rt (w_sess w')) = None.
+    ob_buf (s_ob (w_sess w')) = ob_buf (s_ob (w_sess w)) /\ rt_mps (s_rt (w_sess w')) = None /\
+    rt_maxqos (s_rt (w_sess w')) = rt_maxqos (s_rt (w_sess w)).
 Proof.
   intros w pid e t Hcw Hp Hcap Hd Hpl Ec El Er Epid Hka Hnp Hpt Hbr Htx Hi Ht Hla.
   pose proof Hcw as [Hs [Hl [I [Hmps [_ [HB HF]]]]]].
@@ -197,7 +198,8 @@ Proof.
   split; [rewrite Rd5; reflexivity|]. split; [rewrite Rd5; reflexivity|]. split; [rewrite Rd5; reflexivity|].
   split; [rewrite N5; exact N4|]. split; [exact Ec5|]. split; [exact Er5|]. split; [exact El5|].
   split; [exact T3|]. split; [exact T1|]. split; [exact T2|]. split; [exact Vb|]. split; [exact Vt|]. split; [exact Vl|]. split; [exact T4|]. split; [exact T5|].
-  split; [rewrite Eb5; exact Bf4|exact (proj1 (proj2 (proj2 (proj2 Hc5))))].
+  split; [rewrite Eb5; exact Bf4|]. split; [exact (proj1 (proj2 (proj2 (proj2 Hc5))))|].
+  rewrite Ert5, Rt4. reflexivity.
 Qed.
 
 Theorem poll_pubrec_sends_pubrel : forall w pid e t,
